@@ -499,6 +499,8 @@ func padVersions(versions []string, prereleasePatterns []string, padding padding
 
 	latestRelease := "v0.0.0"
 	all := make(map[string]bool) // for de-duplicating padded versions
+	// A version named twice in the input is listed once.
+	versions = slices.Compact(versions)
 	for _, v := range versions {
 		cv := semver.Canonical(v)
 		all[cv] = true
